@@ -35,7 +35,7 @@ C2S_EVENT_CH = {"CE0": 1, "CEM": 2, "CT": 3}
 
 
 def gen_script(rng, nclients=None, policy=None, track=None, auth=None, length=None, periodic=False,
-               late_join=True, sessions=False, weights=None, max_size=None, events=False, rel=False, burst=0.0, rel_heavy=False, timeout=None, quiet_tail=0.0):
+               late_join=True, sessions=False, weights=None, max_size=None, events=False, rel=False, burst=0.0, rel_heavy=False, timeout=None, quiet_tail=0.0, quick_reconnect=0.0):
     w = dict(sop=5.0, sframe=3.0, cframe=2.5, deliver=4.0, drop=0.6, session=0.25 if sessions else 0.0,
              sev=2.0 if events else 0.0, cev=1.2 if events else 0.0, edeliver=3.0 if events else 0.0)
     if weights:
@@ -55,6 +55,7 @@ def gen_script(rng, nclients=None, policy=None, track=None, auth=None, length=No
                                                                                  " mismatch=%d" % mismatch if mismatch is not None else ""),
              "start", "sframe 0 10"]
     wd = World()
+    quick = [False]
     connected = {}            # slot -> dict(authorized)
     stalled = {}              # slot -> remaining steps in which the update channel is held
     running = True
@@ -316,6 +317,14 @@ def gen_script(rng, nclients=None, policy=None, track=None, auth=None, length=No
             free = [c for c in range(nclients) if c not in connected]
             if r2 < 0.45 and free and running:
                 connect(rng.choice(free))
+            elif r2 < 0.8 and connected and quick_reconnect and auth == "none" and rng.random() < quick_reconnect:
+                # the backend re-establishes the connection without ever reporting Disconnected (Connected -> Connecting ->
+                # Connected): outside C09's premise (the client never notices), so such scripts are judged by the
+                # model/implementation correspondence only
+                c = rng.choice(sorted(connected))
+                lines.append("reconnect %d %d" % (c, rng.choice([1200, 1200, 60])))
+                quick[0] = True
+                stalled.pop(c, None)
             elif r2 < 0.8 and connected:
                 c = rng.choice(sorted(connected))
                 lines.append("disconnect %d" % c)
@@ -366,7 +375,7 @@ def gen_script(rng, nclients=None, policy=None, track=None, auth=None, length=No
                 for c in sorted(connected):
                     if rng.random() < 0.5:
                         lines.append("deliver %d c2s 0 all" % c)
-    return lines, dict(nclients=nclients, policy=policy, track=track, auth=auth, events=events, proto=proto, mismatch=mismatch, connected=sorted(connected),
+    return lines, dict(props=(set() if quick[0] else None), nclients=nclients, policy=policy, track=track, auth=auth, events=events, proto=proto, mismatch=mismatch, connected=sorted(connected),
                        authorized=sorted(c for c in connected if connected[c]["authorized"]))
 
 
